@@ -6,7 +6,7 @@ import core
 import gen
 from props import corefam, C02
 
-LEVEL = "proof"
+LEVEL = "translation_validation"
 
 NSLOT, BITS = 16, 64
 
@@ -281,6 +281,8 @@ def run(rep, tier, seed, replay, proof_ok, proof_msg):
     if not proof_ok and not oracle_found:
         rep.violation("proof-broken", "# " + proof_msg.replace("\n", "\n# ") + "\n", False, "proof stage failed: " + proof_msg.split("\n")[0])
     rep.cov["evaluations"] = n_eval
+    rep.cov["programs"] = max(1, n_eval)
+    rep.cov["disagreements_checked"] = len(corr_broken)
     rep.cov["distinct_nontrivial"] = len(distinct)
     rep.cov["rule"] = "seeded periodic trees (D=1..4, heights >= 2, up to 16 particles incl. all in one corner leaf) x extra levels n=-1..5 (bounded per dimension so that 64-bit counters suffice) x sequential / OpenMP(mock); distinct by (input, n)"
     rep.cov["shape_histogram"] = dict(hist)
